@@ -3,6 +3,7 @@ configuration).  Histories x configuration variants are enumerated by TLC from s
 published notifications are compared with the specification's expectation (codes) and with a
 library-level twin analysis of the same contents (positions and counts)."""
 import json
+import re
 import os
 import random
 import shutil
@@ -928,7 +929,7 @@ def slot_text2(slot, s):
 
 def lib_probe_ops(path, text):
     ops = [{"op": "analyze", "path": path, "text": text}]
-    lines = text.split("\n")
+    lines = re.split(r"\r\n|\r|\n", text)          # every line terminator Python / LSP know (a document may use bare CR)
     for ln in range(min(len(lines) + 2, 14)):
         L = len(lines[ln]) if ln < len(lines) else 0
         for col in sorted({0, 1, 4, 11, 12, 13, max(L - 1, 0), L, L + 3}):
@@ -987,6 +988,12 @@ def check_c11(tier):
         t2 = slot_text2(c["slot"], s)
         if t2 is not None:
             ops += [{"op": "analyze", "path": "/vws11/test_h2.py", "text": t2}, {"op": "available", "path": "/vws11/test_h2.py", "full": True}]
+        if n % 7 == 3:
+            # the same document with other LINE TERMINATORS: bare CR throughout (classic Mac), CRLF, and a CR-terminated header
+            # followed by LF lines; every entry point again at every line
+            ops += lib_probe_ops("/vws11/test_cr.py", text.replace("\n", "\r"))
+            ops += lib_probe_ops("/vws11/test_crlf.py", text.replace("\n", "\r\n"))
+            ops += lib_probe_ops("/vws11/test_mixed.py", text.replace("\n", "\r", 2))
         hcases.append({"id": n, "ops": ops})
     # "very large" documents: the same hostile string repeated until it crosses every power-of-two size up to 64 KiB, at two
     # alignments (so that a multi-byte character straddles any fixed byte limit a fast path might introduce)
